@@ -429,6 +429,7 @@ from collections import deque
 DFIFO_SRC = '''
 import cohdl
 from cohdl import std, Bit, BitVector, Unsigned, Port
+from cohdl.std._context import at_end_of_context
 
 class W(cohdl.Entity):
     clk = Port.input(Bit)
@@ -503,6 +504,40 @@ DFIFO_BODY = {
                     self.data_out <<= fifo.pop()
 ''',
 }
+
+# WHERE push / pop are issued from (same per-activation timing as the process body, so DFifo.step applies unchanged):
+# an at_end_of_context callback, a callback registered by another callback, independent before / after executors
+_PUSH = ["if self.push:", "    if not fifo.full():", "        fifo.push(self.data_in)",
+         "with cohdl.always:", "    self.full_s <<= fifo.full()", "    self.empty_s <<= fifo.empty()"]
+_POP = ["if self.pop:", "    if not fifo.empty():", "        self.data_out <<= fifo.pop()",
+        "with cohdl.always:", "    self.full_r <<= fifo.full()", "    self.empty_r <<= fifo.empty()"]
+
+
+def _dind(lines, n):
+    return "".join(" " * n + l + "\n" for l in lines)
+
+
+def _dsite(site):
+    if site == "end":
+        return (f"\n        async def p_end():\n{_dind(_PUSH, 12)}\n        async def c_end():\n{_dind(_POP, 12)}\n"
+                "        @ctx_p\n        def prod():\n            at_end_of_context(p_end)\n\n"
+                "        @ctx_c\n        def cons():\n            at_end_of_context(c_end)\n")
+    if site == "nested":
+        return (f"\n        def p_ops():\n{_dind(_PUSH, 12)}\n        def c_ops():\n{_dind(_POP, 12)}\n"
+                "        async def p_in():\n            p_ops()\n\n        async def c_in():\n            c_ops()\n\n"
+                "        async def p_out():\n            at_end_of_context(p_in)\n\n        async def c_out():\n            at_end_of_context(c_in)\n\n"
+                "        @ctx_p\n        def prod():\n            at_end_of_context(p_out)\n\n"
+                "        @ctx_c\n        def cons():\n            at_end_of_context(c_out)\n")
+    pm, cm = {"after": ("make_independent_after", "make_independent_before"),
+              "before": ("make_independent_before", "make_independent_after")}[site]
+    return (f"\n        async def p_run():\n{_dind(_PUSH, 12)}\n        async def c_run():\n{_dind(_POP, 12)}\n"
+            f"        p_ex = std.Executor.{pm}(p_run, None)\n        c_ex = std.Executor.{cm}(c_run, None)\n\n"
+            "        @ctx_p(executors=[p_ex])\n        def prod():\n            pass\n\n"
+            "        @ctx_c(executors=[c_ex])\n        def cons():\n            pass\n")
+
+
+for _s in ("end", "nested", "after", "before"):
+    DFIFO_BODY[_s] = _dsite(_s)
 
 DOBS = ("full_s", "empty_s", "full_r", "empty_r", "full_o", "empty_o", "front", "data_out")
 
@@ -605,9 +640,11 @@ def d_fmt(v):
     return "-" if v is None else str(int(v))
 
 
-def d_check_property(graph, N, toks):
+def d_check_property(graph, N, toks, cfg=None):
     from .c15 import path_to
     obs, edges = graph["obs"], graph["edges"]
+    if None in obs[0][:6]:
+        return [], "an occupancy indication is undefined ('U') at power-up"
     start = (0, ())
     prev = {start: None}
     q = deque([start])
@@ -625,6 +662,22 @@ def d_check_property(graph, N, toks):
             if nxt not in prev:
                 prev[nxt] = (cur, tok)
                 q.append(nxt)
+    # liveness: with both contexts ticking and no further push / pop the two views converge to the true occupancy
+    # within two rounds of the index ping-pong
+    if cfg is not None:
+        bound = 2 * (cfg[2] + cfg[3] + 2) + 2
+        for cur in list(prev):
+            n, fq = cur
+            for _ in range(bound):
+                n = edges[n].get("i:u")
+                if n is None:
+                    break
+            if n is None:
+                continue  # truncated graph
+            o = obs[n]
+            if bool(o[3]) != (len(fq) == 0) or bool(o[0]) != (len(fq) == N - 1) or (fq and o[6] != fq[0]):
+                return path_to(prev, cur) + ["i:u"] * bound, \
+                    f"after {bound} idle activations of both contexts the views have not converged to the true occupancy {len(fq)} (liveness of the index ping-pong)"
     return None
 
 
@@ -717,7 +770,7 @@ def d_variant(cfg):
 
 
 def d_name(cfg):
-    return f"dfifo:N={cfg[0]}:W={cfg[1]}:tx={cfg[2]}:rx={cfg[3]}" + (":check-first" if d_variant(cfg) == "check-first" else "")
+    return f"dfifo:N={cfg[0]}:W={cfg[1]}:tx={cfg[2]}:rx={cfg[3]}" + ("" if d_variant(cfg) == "act-first" else ":" + d_variant(cfg))
 
 
 def d_src(cfg):
@@ -729,12 +782,15 @@ def run_delayed(ctx):
     rng = ctx.rng
     ex_cfgs = [(N, 1, t, r) for N in (2, 3) for (t, r) in ((1, 1), (1, 2), (2, 1), (0, 1), (1, 0))]
     ex_cfgs += [(2, 1, 1, 1, "check-first"), (3, 1, 2, 1, "check-first")]
+    ex_cfgs += [(2, 1, t, r, v) for v, (t, r) in zip(("end", "nested", "after", "before"), ((1, 1), (2, 1), (1, 2), (0, 1)))]
     if not ctx.quick:
         ex_cfgs += [(N, 1, t, r) for N in (2, 3) for (t, r) in ((2, 2), (3, 1), (1, 3), (3, 3))] + [(4, 1, 1, 1)]
     rnd_cfgs = [(N, 3, t, r) for N in (2, 3, 4, 5, 8) for t in (1, 2, 3) for r in (1, 2, 3)]
     if ctx.quick:
         rnd_cfgs = [c for c in rnd_cfgs if (c[0] + c[2] + c[3]) % 2 == 0 or c[0] == 8]
     rnd_cfgs += [(4, 3, 0, 2), (5, 3, 2, 0)]
+    rnd_cfgs += [(N, 3, t, r, v) for v, (N, t, r) in zip(("end", "nested", "after", "before", "end", "after"),
+                                                         ((3, 2, 2), (4, 1, 3), (5, 3, 1), (3, 1, 1), (8, 1, 0), (2, 0, 3)))]
     allc = ex_cfgs + rnd_cfgs
     compiled = dict(zip(allc, compile_many([(d_src(c), "W") for c in allc])))
     ok = []
@@ -745,7 +801,7 @@ def run_delayed(ctx):
                        {"kind": "dfifo", "config": list(c), "schedule": [], "wrapper_source": d_src(c), "error": r})
         else:
             ok.append(c)
-    limit = ctx.scale(2500, 12000)
+    limit = ctx.scale(1500, 12000)
     ex = [c for c in ex_cfgs if c in ok]
     toks = [f"{p}:{c}" for p in ("-", "i", "p0", "p1") for c in ("-", "u", "o")]
     tokss = {c: toks for c in ex}
@@ -760,7 +816,7 @@ def run_delayed(ctx):
         for n, e in enumerate(r[1]["edges"]):
             for tok in e:
                 ctx.case(key=("dfifo", c, n, tok), nontrivial=tok[0] == "p" or tok.endswith("o"), kind=f"dfifo-graph:N={c[0]}")
-        v = d_check_property(r[1], c[0], toks)
+        v = d_check_property(r[1], c[0], toks, c)
         if v:
             prop_bad[c] = v
             sched, msg = v
